@@ -67,6 +67,12 @@ var contractSMTFns = map[string]smtFn{
 	"rv_index":    {[]string{"RV", "Int"}, "RV", nil},
 	"rv_mapval":   {[]string{"RV", "Iface"}, "RV", nil},
 	"rv_key":      {[]string{"RV", "Int"}, "RV", nil},
+	"rv_convert":  {[]string{"RV", "TypeTag"}, "RV", nil},
+	"rv_indirect": {[]string{"RV"}, "RV", nil},
+	"rv_field":    {[]string{"RV", "Str"}, "RV", nil},
+	"rv_method":   {[]string{"RV", "Str"}, "RV", nil},
+	"rv_isnil":    {[]string{"RV"}, "Bool", types.Typ[types.Bool]},
+	"rv_elem":     {[]string{"RV"}, "RV", nil},
 	"rv_iskey":    {[]string{"RV", "RV"}, "Bool", types.Typ[types.Bool]},
 	"birth":       {[]string{"Ref"}, "Int", types.Typ[types.Int]},
 	"strlen":      {[]string{"Str"}, "Int", types.Typ[types.Int]},
@@ -498,7 +504,11 @@ func (fr *Frame) evalCall(e *Expr, env *Env, st *State, old *State) *Val {
 		return term(w.zero(ty), ty)
 	case "fresh":
 		x := arg(0)
-		return term(fmt.Sprintf("(>= (birth %s) %s)", fr.refOf(x), u.entryNow), B)
+		base := u.entryNow
+		if fr.freshBase != "" {
+			base = fr.freshBase // in a callee's postcondition: allocated during that call
+		}
+		return term(fmt.Sprintf("(>= (birth %s) %s)", fr.refOf(x), base), B)
 	case "same":
 		a, b := fr.unify(arg(0), arg(1))
 		if u.srt(a) != u.srt(b) {
@@ -549,6 +559,15 @@ func (fr *Frame) evalCall(e *Expr, env *Env, st *State, old *State) *Val {
 		x := arg(0)
 		if u.srt(x) == "Iface" {
 			return x
+		}
+		if u.srt(x) == "RV" && x.Ty == nil {
+			rt := u.eng.reflectValueType()
+			if rt == nil {
+				evalFail("reflect.Value type not found")
+			}
+			nx := *x
+			nx.Ty = rt
+			return fr.makeIface(&nx, rt, anyType, st)
 		}
 		return fr.makeIface(x, x.Ty, anyType, st)
 	case "implements":
